@@ -10,7 +10,7 @@ import sys
 
 from hypothesis import strategies as st
 
-from ..core import VERIF, Ctx, Violation, call, check, must_raise, per_shard, run_enumerated, run_given
+from ..core import VERIF, Ctx, Violation, call, check, must_raise, per_shard, run_enumerated, enumerated_part, run_given, given_part, machine_part, run_parts
 
 PID = "C19"
 LEVEL = "exploration"
@@ -452,8 +452,7 @@ def replay(ctx: Ctx, case):
 
 def run(ctx: Ctx):
     q = ctx.tier == "quick"
-    if not run_enumerated(ctx, "enum", enum_cases(ctx), check_enum):
-        return
+    parts = [enumerated_part(ctx, "enum", enum_cases(ctx), check_enum, every=1)]
     for part, strat, fn, nq, nt in (
         ("hum", humanized(), check_hum, 16000, 400000),
         ("wf", wellformed(), check_wf, 16000, 400000),
@@ -463,7 +462,8 @@ def run(ctx: Ctx):
         ("region", regions(), check_region, 6000, 100000),
         ("uri", uris(), check_uri, 4000, 60000),
     ):
-        if not run_given(ctx, part, strat, fn, per_shard(ctx, nq if q else nt), batch=500):
-            return
+        parts.append(given_part(ctx, part, strat, fn, per_shard(ctx, nq if q else nt), batch=500))
+    if not run_parts(ctx, parts):
+        return
     if not q:
         run_atheris(ctx, runs=400000, max_seconds=150)
